@@ -10,11 +10,13 @@ Decided, for every archive at once, on the call sites of the arch-layer setters 
                uid / gid, p is -1 exactly when the PERMS flag is clear and else header->unix_perms; inside, fchown(fd, uid, gid) under
                uid >= 0 comes before fchmod(fd, perms) under perms >= 0, both on the descriptor just opened;
  R5 order      a file's time is set only after a successful decode (which lies behind the fclose of the output stream);
- R6 mkdir      a directory is created 0700 when permissions are recorded (to be widened afterwards, R3) and 0777 otherwise.
+ R6 mkdir      a directory is created 0700 when permissions are recorded (to be widened afterwards, R3) and 0777 otherwise;
+ R7 envelope   a Mac member is examined for a MacBinary envelope whenever its length is >= 128 (the size of such a header);
+ R8 wildcard   match_glob conforms to the glob transducer ('*' any run including the empty one, '?' one byte, bytes compared as stored).
 These are necessary conditions of "its recorded modification time and, when recorded, its Unix permission bits [and owner]".
 NOT decided (stated plainly): file contents (C01-C04, C07), path construction and parent directories, the order in which directories get
-their metadata relative to their children (C10 R6/R6b decide who may receive metadata, not when), wildcard selection, overwrite policy,
-the print command, MacBinary stripping. Those clauses of C06 are behaviour of call histories and are left to the suite.
+their metadata relative to their children (C10 R6/R6b decide who may receive metadata, not when), which members reach the filter, overwrite policy,
+the print command, the contents of the MacBinary test. Those clauses of C06 are behaviour of call histories and are left to the suite.
 """
 from ..context import Context
 from ..report import Report
@@ -81,6 +83,20 @@ def run(tier, seed):
                     vals.append(src == ("v", au.params[1].id))
             rep.check(rid, len(vals) >= 2 and all(vals), "actime and modtime are both the timestamp parameter (%d stores)" % len(vals), au.file,
                       None if (len(vals) >= 2 and all(vals)) else "a store in lha_arch_utime writes something else than the timestamp parameter", function=au.cname, obj="utimbuf")
+
+        # the converse: a recorded time is never skipped - in the function that applies times, every way past the call carries timestamp == 0
+        for f, c in sites("lha_arch_utime"):
+            M, F = Matcher(f), ctx.facts(f)
+            cut = {(c.block.id, x) for x in c.block.succs} | ({(c.block.id, "ret")} if not c.block.succs else set())
+            for b_ in f.blocks:
+                for s_ in b_.succs:
+                    if M.find_fact(("eq", fld("timestamp", ANY), 0), F.edge_facts(b_.id, s_))[0] is not None:
+                        cut.add((b_.id, s_))
+            if f.cname in ("set_timestamps_from_header",):
+                bad = [r for r in rets(f) if r.block.id != c.block.id and F.reaches_avoiding(0, r.block.id, cut) and (r.block.id, "ret") not in cut]
+                rep.check(rid, not bad, "%s: the time is applied unless timestamp == 0 (no other way round the call)" % f.cname, c.where(),
+                          None if not bad else "a return is reachable without the call and without the fact timestamp == 0: some recorded times are not applied",
+                          function=f.cname, obj="utime-always")
 
         # ---- R2 owner --------------------------------------------------------------------------------------------------------
         rid = rep.rule("R2", "lha_arch_chown(path, u, g): (unix_uid, unix_gid) of one header, in this order, under extra_flags & UNIX_UID_GID of that header; chown(path, uid, gid)", 2)
@@ -209,4 +225,37 @@ def run(tier, seed):
                     rep.check(rid, ok, "mkdir mode %s under the matching state of LHA_FILE_UNIX_PERMS" % (oct(v) if v is not None else describe(ed, s)), c.where(), None,
                               function=ed.cname, obj="mode-%s" % v)
                 rep.check(rid, seen == {0o700, 0o777}, "both modes occur", c.where(), "%s" % sorted(map(str, seen)), function=ed.cname, obj="modes")
+        # ---- R7 MacBinary envelope threshold ---------------------------------------------------------------------------------------
+        rid = rep.rule("R7", "a Mac member is examined for a MacBinary envelope whenever its length is at least the 128 bytes of such a header (an enveloped empty file is exactly 128 bytes long)", 2)
+        mi = rep.need(rid, mod.fn("macbinary_decoder_init"), "function macbinary_decoder_init")
+        if mi:
+            M, F = Matcher(mi), ctx.facts(mi)
+            length = ("load", ("field", HDR, "length", ANY))
+            calls = list(mi.calls("read_macbinary_header"))
+            rep.check(rid, len(calls) == 1, "one envelope test in macbinary_decoder_init", mi.file, "%d" % len(calls), function=mi.cname, obj="site")
+            for c in calls:
+                cut = {(c.block.id, x) for x in c.block.succs}
+                for b_ in mi.blocks:
+                    for s_ in b_.succs:
+                        fs = F.edge_facts(b_.id, s_)
+                        if M.find_fact(("ult", length, 128), fs)[0] is not None or M.find_fact(("ule", length, 127), fs)[0] is not None:
+                            cut.add((b_.id, s_))
+                bad = [r for r in rets(mi) if r.block.id != c.block.id and F.reaches_avoiding(0, r.block.id, cut)]
+                rep.check(rid, not bad, "the envelope test is skipped only for length < 128", c.where(),
+                          None if not bad else "a member of 128 bytes or more can bypass the envelope test: its MacBinary header would be extracted as file contents", function=mi.cname, obj="threshold")
+        # ---- R8 wildcard matcher -------------------------------------------------------------------------------------------------
+        rid = rep.rule("R8", "match_glob conforms to the glob transducer: '*' tries the rest of the pattern at the same string position and else skips one string byte; "
+                             "'?' or an equal stored byte advances both; anything else is a mismatch; at the end of the string trailing '*'s are passed and the verdict is pattern == NUL", 6)
+        mg = rep.need(rid, mod.fn("match_glob"), "function match_glob")
+        if mg:
+            from ..scan import check_glob
+            ok, problems, stats = check_glob(mg, ctx.facts(mg))
+            rep.extra["match_glob_paths"] = stats
+            for w_, text in problems:
+                rep.violation(rid, "match_glob: %s" % text, w_, "the members selected by a wildcard argument are not exactly those whose stored path matches (or the analysis cannot show it)",
+                              function="match_glob", obj="move")
+            if ok:
+                for k in ("star-advance", "star-match", "one", "mismatch", "end"):
+                    for _ in range(stats.get(k, 0)):
+                        rep.ok(rid, "match_glob: %s path conforms" % k, None, "%s:%s" % (mg.file, mg.line))
     return rep.finish(seed)
